@@ -703,10 +703,14 @@ func writeChunkedSegment(ctx context.Context, log *slog.Logger, w http.ResponseW
 	// The rest are returned HTTP chunks as time passes.
 	// In general, we should extract all the samples and build a new one with the right fragment duration.
 	// That fragment/chunk duration is segment_duration-availabilityTimeOffset.
-	chunkDur := (a.SegmentDurMS - int(cfg.AvailabilityTimeOffsetS*1000)) * int(rep.MediaTimescale) / 1000
-	if chunkDur <= 0 {
+	if a.SegmentDurMS-int(cfg.AvailabilityTimeOffsetS*1000) <= 0 {
 		return badConfigError{fmt.Sprintf("availabilityTimeOffset %.3fs leaves no chunk duration for %dms segments",
 			cfg.AvailabilityTimeOffsetS, a.SegmentDurMS)}
+	}
+	// What the offset leaves of this segment, which need not have the nominal (average) segment duration.
+	chunkDur := int(so.meta.newDur) - int(cfg.AvailabilityTimeOffsetS*1000)*int(rep.MediaTimescale)/1000
+	if chunkDur <= 0 {
+		chunkDur = 1 // A segment shorter than the offset is available from its start: every sample is a chunk
 	}
 	chunks, err := chunkSegment(rep.initSeg, seg, so.meta, chunkDur)
 	if err != nil {
